@@ -111,6 +111,13 @@ func newHistory(seed uint64, run int, sum *coqout.Summary, w *coqout.Writer) (*h
 	minTransfer := []uint64{10, 1, 0}[gr.Intn(3)]
 	factorProp := []uint64{1, 0, 3}[gr.Intn(3)]
 	factorSign := []uint64{1, 2}[gr.Intn(2)]
+	// common pool variant: comfortable, or tiny relative to one round of epoch rewards so that
+	// it drains inside an AddRewards call (some entities paid, later ones skipped)
+	poolVariant := []string{"comfortable", "comfortable", "comfortable", "0", "1", "below-first-reward",
+		"between-1-and-2-rewards", "between-2-and-3-rewards", "exactly-one-round", "three-rounds-and-a-bit"}[gr.Intn(10)]
+	if poolVariant != "comfortable" && gr.Chance(60) {
+		factorProp = 0 // keep the per-block proposer reward from draining the pool before the epoch rewards
+	}
 	g, err := muxdrv.NewGenesis(seed*131+uint64(run), muxdrv.GenesisOpts{
 		Validators: 4, Accounts: 10, EpochInterval: 4, DebondingInterval: []uint64{1, 2, 4}[gr.Intn(3)],
 		Mutate: func(doc *genesis.Document) {
@@ -124,6 +131,49 @@ func newHistory(seed uint64, run int, sum *coqout.Summary, w *coqout.Writer) (*h
 			p.MinTransferAmount = *quantity.NewFromUint64(minTransfer)
 			p.RewardFactorBlockProposed = *quantity.NewFromUint64(factorProp)
 			p.RewardFactorEpochSigned = *quantity.NewFromUint64(factorSign)
+			if poolVariant != "comfortable" {
+				// rewards of one AddRewards round (factor 1), in the call order (sorted addresses)
+				var addrs []staking.Address
+				for a, acc := range doc.Staking.Ledger {
+					if !acc.Escrow.Active.Balance.IsZero() {
+						addrs = append(addrs, a)
+					}
+				}
+				sort.Slice(addrs, func(i, j int) bool { return bytes.Compare(addrs[i][:], addrs[j][:]) < 0 })
+				var rw []*big.Int
+				round := new(big.Int)
+				for _, a := range addrs {
+					q := doc.Staking.Ledger[a].Escrow.Active.Balance.ToBigInt()
+					q.Mul(q, p.RewardSchedule[0].Scale.ToBigInt())
+					q.Div(q, staking.RewardAmountDenominator.ToBigInt())
+					rw = append(rw, q)
+					round.Add(round, q)
+				}
+				half := func(x *big.Int) *big.Int { return new(big.Int).Div(x, big.NewInt(2)) }
+				pool := new(big.Int)
+				switch poolVariant {
+				case "0":
+				case "1":
+					pool.SetInt64(1)
+				case "below-first-reward":
+					pool.Sub(rw[0], big.NewInt(1))
+				case "between-1-and-2-rewards":
+					pool.Add(rw[0], half(rw[1]))
+				case "between-2-and-3-rewards":
+					pool.Add(rw[0], rw[1])
+					pool.Add(pool, half(rw[2]))
+				case "exactly-one-round":
+					pool.Set(round)
+				case "three-rounds-and-a-bit":
+					pool.Mul(round, big.NewInt(3))
+					pool.Add(pool, rw[0])
+				}
+				ts := doc.Staking.TotalSupply.ToBigInt()
+				ts.Sub(ts, doc.Staking.CommonPool.ToBigInt())
+				ts.Add(ts, pool)
+				doc.Staking.CommonPool = qty(pool)
+				doc.Staking.TotalSupply = qty(ts)
+			}
 		},
 	})
 	if err != nil {
@@ -132,6 +182,8 @@ func newHistory(seed uint64, run int, sum *coqout.Summary, w *coqout.Writer) (*h
 	h.g = g
 	sum.Count("genesis_fee_weights", fmt.Sprintf("%d/%d/%d", wts[0], wts[1], wts[2]))
 	sum.Count("genesis_min_transact_balance", fmt.Sprint(minTransact))
+	sum.Count("genesis_common_pool", poolVariant)
+	sum.Count("genesis_reward_factor_proposed", fmt.Sprint(factorProp))
 	sum.Count("genesis_debonding_interval", fmt.Sprint(uint64(g.Doc.Staking.Parameters.DebondingInterval)))
 	for i := 0; i < 4; i++ {
 		cfg := muxdrv.ReplicaConfig{Name: fmt.Sprintf("v%d", i), Identity: g.Validators[i].Identity}
